@@ -33,7 +33,7 @@ from checks import CHECKS  # noqa: E402
 
 def goenv():
     e = dict(os.environ)
-    e.update(GOTOOLCHAIN="local", GOFLAGS="-mod=mod", GOPROXY="off", GOROOT=GOROOT,
+    e.update(GOTOOLCHAIN="local", GOFLAGS="-mod=readonly", GOPROXY="off", GOROOT=GOROOT,
              PATH=GOROOT + "/bin:" + e.get("PATH", ""))
     e.pop("GOSUMDB", None)
     return e
@@ -193,7 +193,11 @@ def build_overlay(cid, cfg, mutant=None):
         for f in sorted(glob.glob(os.path.join(VERIF, "harness", pkg, "zz_verif_*.go"))):
             base = os.path.basename(f)
             only = cfg.get("files", {}).get(pkg)
-            if only is not None and base not in only:
+            if only is not None:
+                if base not in only:
+                    continue
+            elif not base.startswith("zz_verif_" + cid.lower()):
+                # by convention zz_verif_cNN*.go belongs to check CNN; anything else must be listed in cfg["files"]
                 continue
             ov[os.path.join(REPO, pkg, base)] = f
     replaced = {}
